@@ -1477,7 +1477,8 @@ class TType:
     def __getitem__(self, item):
         return _t_child(self, '[', item)
 
-    def __call__(self, /, *args, **kwargs):  # (any keyword can be recorded, self= too)
+    def __call__(*args, **kwargs):  # (any keyword can be recorded, self= too;
+        self, args = args[0], args[1:]  # spelled without the 3.8+ positional-only marker)
         if self is S:
             if args:
                 raise TypeError(f'S() takes no positional arguments, got: {args!r}')
